@@ -41,6 +41,7 @@ struct thr {
 	int yielding;
 	int prio;
 	long nsteps;
+	long pending_snap;   /* trace index whose post-state snapshot is taken when this thread next parks */
 };
 static struct thr T[MAXT];
 static int nthr = 1; /* T[0] is main */
@@ -141,6 +142,28 @@ static void log_ev (int tid, int kind, int order, const volatile void *p, uint32
 	snprintf (e->where, sizeof (e->where), "%s", file ? (base ? base + 1 : file) : "-");
 	if (p != NULL) addr_name (p, e->obj, sizeof (e->obj)); else strcpy (e->obj, "-");
 }
+static void (*snapshot_fn) (char *buf, size_t n) = NULL;
+static int in_snapshot = 0;
+static char **snaps = NULL;   /* snapshot text per trace entry (only when tracing) */
+static long cap_snaps = 0;
+void vrt_set_snapshot (void (*fn) (char *, size_t)) { snapshot_fn = fn; }
+static void take_snapshot (long idx) {
+	char buf[512];
+	if (snapshot_fn == NULL || getenv ("VRT_TRACE") == NULL) return;
+	if (idx >= cap_snaps) {
+		long nc = cap_snaps ? cap_snaps * 2 : 4096;
+		while (nc <= idx) nc *= 2;
+		snaps = (char **) realloc (snaps, nc * sizeof (char *));
+		memset (snaps + cap_snaps, 0, (nc - cap_snaps) * sizeof (char *));
+		cap_snaps = nc;
+	}
+	buf[0] = 0;
+	in_snapshot = 1;
+	snapshot_fn (buf, sizeof (buf));
+	in_snapshot = 0;
+	snaps[idx] = strdup (buf);
+}
+void vrt_region_name (const void *p, char *buf, size_t n) { addr_name (p, buf, n); }
 static void print_ev (FILE *f, struct ev *e) {
 	fprintf (f, "E %ld %d %s %s %s:%d %s %u %u %d\n", e->step, e->tid, kname[e->kind], oname[e->order & 3],
 		 e->where, e->line, e->obj, e->a, e->b, e->ok);
@@ -157,6 +180,7 @@ static void dump_trace (void) {
 	for (i = 0; i < ntrace; i++) {
 		while (k < nnotes && note_step[k] <= trace[i].step) { fprintf (f, "N %ld %s\n", note_step[k], notes[k]); k++; }
 		print_ev (f, &trace[i]);
+		if (snaps != NULL && i < cap_snaps && snaps[i] != NULL) fprintf (f, "S %s\n", snaps[i]);
 	}
 	while (k < nnotes) { fprintf (f, "N %ld %s\n", note_step[k], notes[k]); k++; }
 	fclose (f);
@@ -274,7 +298,7 @@ static void dead_stack_check (int t, const volatile void *addr, const char *what
 }
 void vrt_plain (const void *addr, int size, int is_write, const void *pc) {
 	int t = self_id, g;
-	if (!started) return;
+	if (!started || in_snapshot) return;
 	nplain++;
 	if ((char *) addr >= T[t].stack_lo && (char *) addr < T[t].stack_hi) return; /* own stack */
 	if (vrt_is_freed (addr)) {
@@ -426,6 +450,7 @@ static struct thr *sched_point (int kind) {
 	struct thr *me = &T[self_id];
 	char here;
 	if (!started || self_id == 0) return me;
+	if (me->pending_snap >= 0) { take_snapshot (me->pending_snap); me->pending_snap = -1; }
 	steps++;
 	me->nsteps++;
 	if (steps > max_steps) {
@@ -447,7 +472,9 @@ static void *trampoline (void *v) {
 	self_id = me->id;
 	sem_wait (&me->go);
 	log_ev (me->id, K_START, 0, NULL, 0, 0, 1, me->name, 0);
+	me->pending_snap = -1;
 	me->fn (me->arg);
+	if (me->pending_snap >= 0) { take_snapshot (me->pending_snap); me->pending_snap = -1; }
 	steps++;
 	log_ev (me->id, K_END, 0, NULL, 0, 0, 1, me->name, 0);
 	me->state = ST_FINISHED;
@@ -578,6 +605,7 @@ int vrt_cas (volatile void *p, uint32_t o, uint32_t n, int order, const char *fi
 	ok = (*w == o);
 	if (ok) { *w = n; hb_rmw (me->id, p, order); last_progress_step = steps; }
 	log_ev (me->id, K_CAS, order, p, o, n, ok, file, line);
+	me->pending_snap = ntrace - 1;
 	return ok;
 }
 uint32_t vrt_load (volatile void *p, int order, const char *file, int line) {
@@ -587,6 +615,7 @@ uint32_t vrt_load (volatile void *p, int order, const char *file, int line) {
 	v = *(volatile uint32_t *) p;
 	hb_load (me->id, p, order);
 	log_ev (me->id, K_LOAD, order, p, v, 0, 1, file, line);
+	me->pending_snap = ntrace - 1;
 	return v;
 }
 void vrt_store (volatile void *p, uint32_t v, int order, const char *file, int line) {
@@ -596,6 +625,7 @@ void vrt_store (volatile void *p, uint32_t v, int order, const char *file, int l
 	*(volatile uint32_t *) p = v;
 	hb_store (me->id, p, order);
 	last_progress_step = steps;
+	me->pending_snap = ntrace - 1;
 }
 void vrt_yield (void) {
 	struct thr *me = sched_point (K_YIELD);
@@ -650,6 +680,7 @@ static long futex_wait (struct thr *me, volatile uint32_t *uaddr, uint32_t val, 
 		return -1;
 	}
 	/* block */
+	if (me->pending_snap >= 0) { take_snapshot (me->pending_snap); me->pending_snap = -1; }
 	me->state = ST_BLOCKED;
 	me->futex_addr = uaddr;
 	me->has_deadline = ts != NULL && dl != INT64_MAX;
